@@ -88,11 +88,20 @@ func gatesAuth(s *Summary, c *gateCase) {
 		accounts[a[0]] = a[1]
 	}
 	for _, hv := range authHeaders(c) {
-		for posk := 0; posk < 8; posk++ { // the gate as global, group or route middleware; 3: behind a handler that has already written
-			pos, preflight := posk%4, posk >= 4 // preflight: the same as an OPTIONS request that looks like a CORS preflight
+		for posk := 0; posk < 10; posk++ { // the gate as global, group or route middleware; 3: behind a handler that has already written
+			pos, preflight := posk%5, posk >= 5 // preflight: the same as an OPTIONS request that looks like a CORS preflight
 			ran := []string{}
 			r := rux.New()
 			auth := handlers.HTTPBasicAuth(accounts)
+			if posk%2 == 1 && len(accounts) > 0 {
+				// the account list is the application's map: created empty, handed to the gate, filled from the configuration
+				// afterwards (before any request is served)
+				late := map[string]string{}
+				auth = handlers.HTTPBasicAuth(late)
+				for k, v := range accounts {
+					late[k] = v
+				}
+			}
 			mark := func(tag string) rux.HandlerFunc { return func(cx *rux.Context) { ran = append(ran, tag) } }
 			switch pos {
 			case 0:
@@ -104,6 +113,17 @@ func gatesAuth(s *Summary, c *gateCase) {
 			case 2:
 				r.Use(mark("before"))
 				r.Add("/p", mark("main"), "GET", "OPTIONS").Use(auth, mark("after"))
+			case 4:
+				// the gate as route middleware inside a group whose chain was grown by single Use calls (spare capacity), with a
+				// sibling route that has middleware of its own registered after it
+				r.Use(mark("before"))
+				r.Group("/", func() {
+					r.Use(nopHandler)
+					r.Use(nopHandler)
+					r.Use(nopHandler)
+					r.Add("/p", mark("main"), "GET", "OPTIONS").Use(auth) // (a single route middleware: it fits into the spare slot)
+					r.Add("/q", nopHandler, "GET").Use(mark("other"))
+				})
 			default:
 				// a generic http.Handler wrapped as middleware has started the response before the gate is reached: the gate can
 				// no longer change the status, but it still decides whether anything downstream runs
@@ -123,7 +143,7 @@ func gatesAuth(s *Summary, c *gateCase) {
 			w := httptest.NewRecorder()
 			r.ServeHTTP(w, req)
 			s.Compared++
-			downstream := len(ran) == 3
+			downstream := len(ran) == 3 || (pos == 4 && reflect.DeepEqual(ran, []string{"before", "main"}))
 			wantCode := map[string]int{"pass": 200, "401": 401, "403": 403}[c.Expect]
 			challenge := w.Header().Get("WWW-Authenticate") != ""
 			if pos == 3 { // status and headers are on the wire already
@@ -132,7 +152,7 @@ func gatesAuth(s *Summary, c *gateCase) {
 			if w.Code != wantCode || downstream != (c.Expect == "pass") || (c.Expect == "401") != challenge || (c.Expect != "pass" && !reflect.DeepEqual(ran, []string{"before"})) {
 				s.mismatch(map[string]any{"kind": "gates", "aspect": "auth", "what": fmt.Sprintf(
 					"HTTPBasicAuth(accounts %v) as %s middleware, Authorization %q: status %d, handlers run %v, challenge=%v; the statement gives %s",
-					accounts, []string{"global", "group", "route", "global (after a handler that has written)"}[pos]+map[bool]string{true: " (OPTIONS preflight)", false: ""}[preflight], hv, w.Code, ran, challenge, c.Expect)}, c)
+					accounts, []string{"global", "group", "route", "global (after a handler that has written)", "route (in a group with three Use calls, before a sibling route)"}[pos]+map[bool]string{true: " (OPTIONS preflight)", false: ""}[preflight], hv, w.Code, ran, challenge, c.Expect)}, c)
 				return
 			}
 		}
